@@ -23,7 +23,7 @@ type c06Fault struct {
 
 type c06Case struct {
 	Faults    []c06Fault `json:"faults"`    // one per consecutive generation
-	Bystander string     `json:"bystander"` // "" | invoke | shutdown : a healthy second extension and what it subscribes to
+	Bystander string     `json:"bystander"` // "" | invoke | shutdown | shutdown-exiterr | shutdown-linger : a healthy second extension and what it subscribes to
 	SubE1     []string   `json:"subE1"`     // subscriptions of the faulty extension
 	// AdoptDemo orders the known finding "poll of a killed runtime adopted by the next generation" deterministically: the
 	// Runtime API's handling of the first runtime's next request is paused (vhook rapi.next) until the failure's reset is
@@ -62,8 +62,11 @@ func (c *c06Case) scenario() *Scenario {
 		sc.Config.ExtDir = append(sc.Config.ExtDir, DirEntry{Name: "e2", Kind: "file"})
 		ev := []string{"INVOKE"}
 		onShut := ""
-		if c.Bystander == "shutdown" || c.Bystander == "shutdown-exiterr" {
+		if c.Bystander == "shutdown" || c.Bystander == "shutdown-exiterr" || c.Bystander == "shutdown-linger" {
 			ev = []string{"INVOKE", "SHUTDOWN"}
+		}
+		if c.Bystander == "shutdown-linger" {
+			onShut = "ignore" // receives the SHUTDOWN event and stays: the teardown has to kill it at its deadline
 		}
 		if c.Bystander == "shutdown-exiterr" {
 			onShut = "exiterr" // reports /extension/exit/error while the environment is being torn down, then exits
@@ -446,7 +449,7 @@ func c06GenFault(t *rapid.T, g int, allowExt bool) c06Fault {
 }
 
 func c06Gen(t *rapid.T) c06Case {
-	c := c06Case{Bystander: rapid.SampledFrom([]string{"", "", "invoke", "shutdown", "shutdown-exiterr"}).Draw(t, "bystander")}
+	c := c06Case{Bystander: rapid.SampledFrom([]string{"", "", "invoke", "shutdown", "shutdown-exiterr", "shutdown-linger"}).Draw(t, "bystander")}
 	n := rapid.IntRange(1, 2).Draw(t, "generations")
 	for g := 0; g < n; g++ {
 		c.Faults = append(c.Faults, c06GenFault(t, g, true))
@@ -465,8 +468,12 @@ func c06Fixed() []c06Case {
 	bys := []string{""}
 	if kit.Thorough() {
 		exits = []string{"code:0", "code:3", "sig:9"}
-		bys = []string{"", "invoke", "shutdown", "shutdown-exiterr"}
+		bys = []string{"", "invoke", "shutdown", "shutdown-exiterr", "shutdown-linger"}
 	}
+	// a failed first initialisation (launch failure, reported init error) next to an extension that stays after SHUTDOWN
+	out = append(out, c06Case{Bystander: "shutdown-linger", Faults: []c06Fault{{Who: "runtime", Point: "launch", Exit: "code:1", Pending: true}}},
+		c06Case{Bystander: "shutdown-linger", Faults: []c06Fault{{Who: "runtime", Point: "initerror", Exit: "code:1", Pending: true}}},
+		c06Case{Bystander: "shutdown-linger", Faults: []c06Fault{{Who: "runtime", Point: "afternext", Exit: "code:1", Pending: true}}})
 	out = append(out, c06Case{Bystander: "shutdown-exiterr", Faults: []c06Fault{{Who: "runtime", Point: "afternext", Exit: "code:1"}, {Who: "runtime", Point: "afternext", Exit: "code:2"}}})
 	// known finding, ordered by a pause point: the first runtime's poll is handled only after the reset (see AdoptDemo)
 	out = append(out, c06Case{AdoptDemo: true, SubE1: []string{"INVOKE", "SHUTDOWN"}, Faults: []c06Fault{{Who: "ext", Point: "afterregister", Exit: "code:1", Pending: true}}})
